@@ -13,27 +13,34 @@ PROP = "C03"
 PROPERTY_FILES = ["Properties/C03.v"]
 IMPORTS = SE.IMPORTS + " Model.Cluster"
 META = dict(
-    level_text="Theorems (Coq, arbitrary predicates): a local change that leaves a run active is ahead of every identical "
-               "copy, applying the replicated record to an identical copy yields an identical copy (index and history), "
-               "a run started on one instance is re-created identically elsewhere, a step depends on the run table only; "
-               "PARTIAL cluster theorem: under the named premise sync_step (table-level plumbing of one synchronous "
-               "step) all replicas hold equal run tables after every input for every routing, so any survivor of any "
-               "crash continues as a single engine would. The pinned commit is refuted (D3: loop progress not applied). "
-               "Tie: N real deciders exchanging serialised notes vs the cluster model, compared per scenario incl. the "
-               "premise itself (replica tables equal after every step, model and implementation); oracle: N real "
-               "engines (receiver/decider/producer/forwarder) with synchronous replication vs ONE real engine fed the "
-               "whole stream, for every routing, crash point and crashed subset.",
-    level_note="Trusted: Coq kernel; harness. Scope of the oracle: patterns whose block predicates ignore fed-back "
-               "complex/action events (each instance generates its own complex event for a remote completion; a pattern "
-               "that accepts complex events is the known finding D4). History-dependent predicates are data-based "
-               "(timestamps are per-instance). Delivery goes through to_json_str/from_json_str, not through tcp.py "
-               "(C06/C09/C10/C15 cover that path).",
-    rule="C01-style patterns (loop, optional, negated, strict, singleton, history-dependent), streams up to 6-8, every "
-         "assignment of stream positions to 2 instances and sampled ones to 3, every crash point x every proper "
-         "subset, finished-run memory on and off; non-trivial = a run spans at least two instances",
+    level_text="Theorems (Coq, all closed, arbitrary predicates): per run - a local change that leaves a run active is "
+               "ahead of every identical copy, applying the replicated record to an identical copy yields an identical "
+               "copy (index and history), a run started on one instance is re-created identically elsewhere, a step "
+               "depends on the run table only; per step (C03_sync_step) - a peer holding the same runs as the sender "
+               "held before the event holds the same runs as the sender afterwards, pattern by pattern and in order, for "
+               "non-singleton patterns under identifier-hygiene side conditions (active ids unique, drawn ids fresh, "
+               "records name existing patterns, the receiver remembers none of the note's runs as finished); cluster "
+               "(C03_replicas_equal) - from the initial state, for EVERY routing of EVERY stream with messages delivered "
+               "between consecutive inputs, all replicas hold the same runs after every input, so any survivor of any "
+               "crash continues as a single engine holding that table would. The pinned commit is refuted (D3). "
+               "Tie: N real deciders exchanging serialised notes vs the cluster model evaluated in Coq, incl. the side "
+               "conditions (tables equal after every step, nothing filtered); oracle: N real ENGINES (receiver, decider, "
+               "producer, forwarder) with synchronous replication vs ONE real engine fed the whole stream, for every "
+               "routing, crash point and crashed subset.",
+    level_note="Trusted: Coq kernel; harness. The theorem is at decider level; the engine-level oracle covers producer/"
+               "forwarder/feedback. Scope of the oracle: patterns whose block predicates ignore fed-back complex/action "
+               "events (each instance generates its own complex event for a remote completion; a pattern that accepts "
+               "complex events is the known finding D4). History-dependent predicates are data-based (timestamps are "
+               "per-instance). Delivery goes through to_json_str/from_json_str, not through tcp.py (C06/C09/C10/C15).",
+    rule="C01-style patterns (loop, optional, negated, strict, singleton, history-dependent; all 4-block shapes over "
+         "every pair of inner kinds), streams up to 6-8, every assignment of stream positions to 2 instances and sampled "
+         "ones to 3, every crash point x every proper subset, finished-run memory on and off; non-trivial = a run spans "
+         "at least two instances",
     trusted_base=["harness/sim_cluster.py, sim_engine.py, predlang.py"],
     assumptions=["replication messages are delivered between consecutive inputs (premise of the property)",
-                 "run ids of different instances are distinct (C16)"])
+                 "run ids of different instances are distinct (C16)",
+                 "theorem side conditions step_ok (checked on every generated step): unique active ids, fresh drawn ids, "
+                 "records name existing patterns, receivers filter nothing out of the sender's note"])
 
 
 def insensitive(p):
@@ -189,8 +196,8 @@ def run(ctx, res):
         n_eq += 1 if eq else 0
         single = any(p["single"] for _ph, ps in cfg["phen"] for p in ps)
         if not eq and not single:
-            res.mismatches.append(dict(case=dict(cfg=cfg, n=n, inputs=inputs), impl="replica tables differ after a synchronous step",
-                                       model="premise sync_step"))
+            res.mismatches.append(dict(case=dict(cfg=cfg, n=n, inputs=inputs), impl="replica tables differ after a synchronous step, or a receiver filtered part of the note",
+                                       model="C03_sync_step and its side conditions"))
     res.extra["sync_premise_checked_on"] = len(cases)
     res.extra["sync_premise_held_on"] = n_eq
     mism, errs = common.coq_run_cases("C03", IMPORTS, "run_cluster", "(cdesc * nat * list (nat * ev))", coq_cases, shard=150)
